@@ -15,6 +15,7 @@ type TimerObj struct {
 	stopped bool
 	fired   bool
 	armedAt int
+	deadline int64 // absolute instant (ns) at which it expires, -1 if its duration is not a constant
 	ch      *Chan // nil for AfterFunc timers
 	obj     *StructObj
 }
@@ -29,6 +30,7 @@ type WriterStub struct{ name string }
 
 type clockState struct {
 	now      *Term
+	ns       int64 // the same instant, concretely (frozen clock only)
 	symbolic bool
 }
 
@@ -36,7 +38,7 @@ func (ex *Exec) clk() *clockState {
 	if s, ok := ex.side["clock"]; ok {
 		return s.(*clockState)
 	}
-	s := &clockState{now: ex.ts.Const(64, 1_000_000_000_000_000)}
+	s := &clockState{now: ex.ts.Const(64, 1_000_000_000_000_000), ns: 1_000_000_000_000_000}
 	ex.side["clock"] = s
 	return s
 }
@@ -86,8 +88,16 @@ func (ex *Exec) nowNs() *Term {
 	return c.now
 }
 
-func (ex *Exec) newTimer(withChan bool) *TimerObj {
-	t := &TimerObj{armedAt: ex.clock}
+// deadlineOf: the absolute expiry instant of a timer of duration d armed now (-1 when d is not a constant)
+func (ex *Exec) deadlineOf(d Value) int64 {
+	if t, ok := d.(*Term); ok && t.IsConst() && !ex.clk().symbolic {
+		return ex.clk().ns + int64(t.val)
+	}
+	return -1
+}
+
+func (ex *Exec) newTimer(withChan bool, dur Value) *TimerObj {
+	t := &TimerObj{armedAt: ex.clock, deadline: ex.deadlineOf(dur)}
 	if withChan {
 		t.ch = &Chan{cap: 1, elemT: ex.timeType()}
 	}
@@ -95,10 +105,16 @@ func (ex *Exec) newTimer(withChan bool) *TimerObj {
 	return t
 }
 
-// fireTimers delivers every armed channel timer created before the current tick.
+// due: the timer has expired — it was armed before the current coarse tick (verifAdvanceTime: "beyond every time-out"),
+// or its known deadline has been reached by fine-grained advances (verifAdvanceMs)
+func (ex *Exec) due(t *TimerObj) bool {
+	return ex.clock > t.armedAt || (t.deadline >= 0 && ex.clk().ns >= t.deadline)
+}
+
+// fireTimers delivers every armed channel timer that is due.
 func (ex *Exec) fireTimers() {
 	for _, t := range ex.timers {
-		if t.ch != nil && !t.stopped && !t.fired && ex.clock > t.armedAt {
+		if t.ch != nil && !t.stopped && !t.fired && ex.due(t) {
 			t.fired = true
 			if len(t.ch.q) < t.ch.cap {
 				t.ch.q = append(t.ch.q, ex.mkTime(ex.clk().now))
@@ -151,19 +167,19 @@ func (ex *Exec) timerIntrinsic(fn *ssa.Function, name string, args []Value) (Val
 	case "time.UnixMilli":
 		return ex.mkTime(ex.ts.Bin(OpMul, args[0].(*Term), ex.ts.Const(64, 1_000_000))), true
 	case "time.NewTimer":
-		t := ex.newTimer(true)
+		t := ex.newTimer(true, args[0])
 		so := ex.newLoc(ex.timerType()).(*StructObj)
 		so.fields[0].(*Cell).v = t.ch
 		t.obj = so
 		ex.side[Loc(so)] = t
 		return Ptr{loc: so}, true
 	case "time.After":
-		return ex.newTimer(true).ch, true
+		return ex.newTimer(true, args[0]).ch, true
 	case "time.AfterFunc":
-		t := ex.newTimer(false)
+		t := ex.newTimer(false, args[0])
 		f := args[1]
 		ex.spawn(func() {
-			ex.wait(func() bool { return t.stopped || ex.clock > t.armedAt }, "timer")
+			ex.wait(func() bool { return t.stopped || ex.due(t) }, "timer")
 			if !t.stopped {
 				t.fired = true
 				ex.callAny(f, nil)
@@ -185,6 +201,7 @@ func (ex *Exec) timerIntrinsic(fn *ssa.Function, name string, args []Value) (Val
 		}
 		was := !t.stopped && !t.fired
 		t.stopped, t.fired, t.armedAt = false, false, ex.clock
+		t.deadline = ex.deadlineOf(args[1])
 		return ex.ts.Bool(was), true
 	case "os/exec.Command":
 		c := &cmdState{}
@@ -224,7 +241,18 @@ func (ex *Exec) timerIntrinsic(fn *ssa.Function, name string, args []Value) (Val
 			c := ex.clk()
 			if !c.symbolic {
 				c.now = ex.ts.Bin(OpAdd, c.now, ex.ts.Const(64, 10_000_000_000))
+				c.ns += 10_000_000_000
 			}
+			ex.fireTimers()
+			return nil, true
+		case "verifAdvanceMs": // a short stretch of time: only timers whose (constant) duration has run out expire
+			c := ex.clk()
+			if c.symbolic {
+				panic(unsupported("verifAdvanceMs with a symbolic clock"))
+			}
+			d := int64(ex.concretize(args[0].(*Term))) * 1_000_000
+			c.ns += d
+			c.now = ex.ts.Const(64, uint64(c.ns))
 			ex.fireTimers()
 			return nil, true
 		case "verifHelperExit": // the helper process ends with the given exit code
